@@ -304,6 +304,18 @@ def generated_models():
         a = svc(0, [0] if role == 'output' else [1], [], [0] if role == 'input' else [])
         b = svc(1, [2] if role == 'output' else [1], [], [2] if role == 'input' else [])
         model('services-mutual-%s' % role, dec_svc(0, [1], 's1(1)') + dec_svc(2, [0], 's0(1)') + leaf + a + b, ['d0', 'd2', 's0', 's1'])
+    # dangling references of a decision service: an output / encapsulated / input decision or input data href that points to a missing id, to the
+    # definitions element, to an element of another kind (input data, the service itself is covered by the cycle shapes), with one and two outputs
+    # (seeded change C12_d: the single-result case indexed the list of RESOLVED output names)
+    for role in ('output', 'encapsulated', 'input', 'inputdata'):
+        for target in ('#_nowhere', '#_m', '#_i0', '#_d9', ''):
+            for n_out in (1, 2):
+                outs = ''.join('<outputDecision href="%s"/>' % (target if (role == 'output' and k == 0) else '#_d1') for k in range(n_out))
+                extra = {'output': '', 'encapsulated': '<encapsulatedDecision href="%s"/>' % target, 'input': '<inputDecision href="%s"/>' % target,
+                         'inputdata': '<inputData href="%s"/>' % target}[role]
+                sv = '  <decisionService name="s0" id="_s0"><variable name="s0"/>%s%s</decisionService>\n' % (outs, extra)
+                caller = dec_svc(0, [0], 's0()')
+                model('service-dangling-%s-%s-out%d' % (role, target or 'empty', n_out), caller + leaf + sv, ['s0', 'd0', 'd1'])
     # an input decision that is also required by the output decision, and a service whose input decision requires its output decision
     model('service-input-requires-output', dec_svc(0, [], 'd1 + 1', extra=[1]) + leaf + svc(0, [1], [], [0]), ['d0', 's0'])
     model('service-output-requires-input', dec_svc(0, [], 'd1 + 1', extra=[1]) + leaf + svc(0, [0], [], [1]), ['d0', 's0'])
